@@ -302,14 +302,16 @@ class MetaModule(BaseMetaModule, Module):
         if isinstance(controller, UserDefined) and down:
             mapping_index = controller.number - self.user_defined[0].number
             mapping = self.mappings.values[mapping_index]
-            mod = self.project.modules[mapping.module]
+            modules = self.project.modules
+            mod = modules[mapping.module] if 0 < mapping.module < len(modules) else None
+            controllers = list(mod.controllers.items()) if mod else []
             controller_index = mapping.controller
-            controllers = list(mod.controllers.items())
-            ctl_name, ctl = controllers[controller_index]
-            t = ctl.instance_value_type(mod)
-            if isinstance(t, Range):
-                value += t.min
-            ctl.propagate(mod, value, down=True)
+            if controller_index < len(controllers):
+                ctl_name, ctl = controllers[controller_index]
+                t = ctl.instance_value_type(mod)
+                if isinstance(t, Range):
+                    value += t.min
+                ctl.propagate(mod, value, down=True)
         super(MetaModule, self).on_controller_changed(controller, value, down, up)
 
     def on_embedded_controller_changed(self, module, controller, value):
